@@ -28,7 +28,10 @@
      descriptions are VALUES: `param.type = ..` on a description popped from `params` is not seen through the old
        self.parameter_descs -- sound here because that list is replaced whenever `params` was not empty (any_info);
        sampled by the fields_ir leg of the correspondence check
-     `x if c else y` is hoisted by the translator into an assignment to a fresh local under `if c` *)
+     `x if c else y` is hoisted by the translator into an assignment to a fresh local under `if c`
+     next((d for d in reversed(l) if c), None)   SFindLast: the last element of l that satisfies c, else None; the variable
+                                         of the generator is visible only while c is evaluated
+     any(c for d in l)                   SAnyIn: the elements are tried in order until one satisfies c *)
 From Coq Require Import ZArith NArith List Bool Arith.
 From PydoctorVerif Require Import Base.Sexp Model.FieldTypes Gen.TablesC09 Model.Fields.
 Import ListNotations.
@@ -112,7 +115,9 @@ Inductive stmt :=
 | SSetVarFld (x : var) (fl : ofld) (e : expr)              (* x.fl = e *)
 | SVarAppend (x : var) (e : expr)                          (* x.append(e) *)
 | SVarExtend (x : var) (e : expr)                          (* x += e   (lists) *)
-| SRemove (a : sattr) (e : expr).                          (* self.a.remove(e) *)
+| SRemove (a : sattr) (e : expr)                           (* self.a.remove(e) *)
+| SFindLast (x tgt : var) (l : expr) (c : cond)            (* tgt = next((x for x in reversed(l) if c), None) *)
+| SAnyIn (x tgt : var) (l : expr) (c : cond).              (* tgt = any(c for x in l) *)
 
 (* ---- values <-> the attributes of the model ------------------------------------------------------------------------- *)
 Definition to_body (v : val) : option (option nat) :=
@@ -368,6 +373,26 @@ Section Exec.
                          end
     end.
 
+  (* the first element of vs that satisfies c (None: the condition cannot be evaluated) *)
+  Fixpoint find_first (loc : var -> val) (st : state) (x : var) (c : cond) (vs : list val) : option val :=
+    match vs with
+    | [] => Some VNone
+    | v :: r => match evalc (setv loc x v) st c with
+                | Some true => Some v
+                | Some false => find_first loc st x c r
+                | None => None
+                end
+    end.
+  Fixpoint any_in (loc : var -> val) (st : state) (x : var) (c : cond) (vs : list val) : option bool :=
+    match vs with
+    | [] => Some false
+    | v :: r => match evalc (setv loc x v) st c with
+                | Some true => Some true
+                | Some false => any_in loc st x c r
+                | None => None
+                end
+    end.
+
   Definition upd (ms : mstate) (st : state) : mstate := {| ms_st := st; ms_msgs := ms_msgs ms |}.
 
   Fixpoint evals (loc : var -> val) (st : state) (l : list expr) : option (list val) :=
@@ -521,6 +546,22 @@ Section Exec.
                            | None => RStuck
                            end
       | _, _ => RStuck
+      end
+    | SFindLast x tgt l c =>
+      match eval loc st l with
+      | Some (VList vs) => match find_first loc st x c (rev vs) with
+                           | Some v => RNormal (setv loc tgt v) ms
+                           | None => RStuck
+                           end
+      | _ => RStuck
+      end
+    | SAnyIn x tgt l c =>
+      match eval loc st l with
+      | Some (VList vs) => match any_in loc st x c vs with
+                           | Some b => RNormal (setv loc tgt (VBool b)) ms
+                           | None => RStuck
+                           end
+      | _ => RStuck
       end
     end.
 End Exec.
